@@ -283,6 +283,9 @@ def build_model(n, sty, parent_prec=0):
         obj = cls(_m_path(n["path"], sty.pick(3)), _m_const(rhs, raw and rhs["c"] in ("int", "bool", "float")), negated=True) if n["neg"] \
             else cls(_m_path(n["path"], sty.pick(3)), _m_const(rhs, raw and rhs["c"] in ("int", "bool", "float")))
         prec = 3
+    elif k == "exists":
+        obj = M.ExistsComparisonExpression(_m_path(n["path"], sty.pick(3)), n["neg"]) if n["neg"] else M.ExistsComparisonExpression(_m_path(n["path"], sty.pick(3)))
+        prec = 3
     elif k in ("and", "or"):
         prec = P.CMP_PREC[k]
         ops = [build_model(a, sty, prec + 0.5)[0] for a in n["args"]]
@@ -332,6 +335,8 @@ def _model_unquotable(ast):
 def check_model_case(case):
     ast = case["model"]
     ver = case.get("ver", "2.1")
+    if any(n["k"] == "exists" for n in P.walk(ast)):
+        ver = "2.1"                         # EXISTS is a 2.1 construct: its printout is judged by the 2.1 grammar
     feats = P.features(_model_expected(ast))
     if _model_unquotable(ast):
         feats.add("quoted-step-needs-quotes")
@@ -411,6 +416,8 @@ def _mg_cmp(draw, t):
         p, val = P.HASH_PATHS[draw(_I2)]
         alg = p["steps"][1]["n"]
         return {"k": "cmp", "path": p, "op": "=", "neg": bool(draw(_I2)), "rhs": {"c": "hash", "v": val, "alg": alg}}
+    if r == 1 or r == 2:
+        return {"k": "exists", "path": _mg_path(draw, t), "neg": r == 2}       # printed for 2.1 only (see check_model_case)
     op = _M_OPS[r % len(_M_OPS)]
     rhs = draw(_m_prim if op == "=" else _m_ord if op in P.ORDER_OPS else _m_set if op == "IN" else _m_str)
     return {"k": "cmp", "path": _mg_path(draw, t), "op": op, "neg": draw(_I10) < 3, "rhs": rhs}
